@@ -26,6 +26,7 @@ from concurrent.futures import ThreadPoolExecutor
 
 VERIF = os.path.dirname(os.path.dirname(os.path.abspath(__file__)))
 PY = "/venv/bin/python"
+EXTRA = []          # --extra: checks run in addition to those of the properties that anchor the file (neighbouring properties)
 
 
 def anchors():
@@ -185,7 +186,7 @@ def worker(wid, jobs, amap, outf, lock):
                     rec["suite"] = "survived"
                     rec["caught_by"] = []
                     rec["checks_run"] = []
-                    for prop in amap.get(rel, []):
+                    for prop in amap.get(rel, []) + [p_ for p_ in EXTRA if p_ not in amap.get(rel, [])]:
                         out = os.path.join(base, "out")
                         env = dict(os.environ, SPV_REPO=wt, SPV_OUT=out, SPV_NO_SUITE="1", SPV_NO_COLD="1", SPV_NO_ENVPASS="1", PYTHONPATH=VERIF, PYTHONHASHSEED="0", PYTHONDONTWRITEBYTECODE="1")
                         rc, o = sh([PY, "-X", "dev", "-W", "ignore", "-m", "spverif", prop, "quick"], cwd=VERIF, env=env, timeout=900)
@@ -218,7 +219,9 @@ def main():
     ap.add_argument("--files")
     ap.add_argument("--skip", help="result file(s), comma separated: sites already mutated there are left out")
     ap.add_argument("--recheck", help="re-run only the mutants of this result file that survived suite and checks (same file / site index)")
+    ap.add_argument("--extra", help="comma separated property ids whose checks are run on every mutant in addition to the anchoring ones")
     a = ap.parse_args()
+    EXTRA.extend(a.extra.split(",") if a.extra else [])
     amap = anchors()
     files = sorted(amap) if not a.files else a.files.split(",")
     r = random.Random(a.seed)
